@@ -328,7 +328,7 @@ pub fn random_response(rng: &mut Rng, body_max: usize, allow_close: bool, tag: &
     if is_redirect_status(head.status) && rng.chance(5, 6) {
         let at = rng.usize_in(0, head.fields.len());
         // (now and then a value that is not text: the exchange itself is unaffected, only following fails)
-        head.fields.insert(at, Field::new("Location", if rng.chance(1, 8) { &b"/n\xe9xt"[..] } else { &b"/next"[..] }));
+        head.fields.insert(at, Field::new("Location", match rng.below(8) { 0 => &b"/n\xe9xt"[..], 1 | 2 => &b"http://elsewhere.test/next?x=1"[..], _ => &b"/next"[..] }));
     }
     if rng.chance(1, 5) {
         let at = rng.usize_in(0, head.fields.len());
